@@ -81,6 +81,12 @@ def connrun(pid, tier, seed, replay):
             v.cov.setdefault("apalache_inductive", []).append(ra)
             if ra["status"] == "refuted":
                 raise vlib.MachineryError("ConnNotify: IndInv is not inductive (%s)" % ra.get("detail"))
+            # unbounded in the PARAMETERS as well: the TLAPS proof ConnNotifyProof.tla (Spec => []PInv for every finite set of
+            # senders, every MaxCalls, either admission rule; 126 obligations)
+            rp2 = vlib.run_tlapm("ConnNotifyProof")
+            v.cov["tlaps_proofs"] = [rp2]
+            if rp2["status"] == "failed":
+                raise vlib.MachineryError("ConnNotifyProof: %s" % rp2.get("detail"))
         # behaviours generated by TLC from the model
         n = 150 if tier == "quick" else 1500
         for cfg, pre in (("ConnGen_a.cfg", "tlcA"), ("ConnGen_b.cfg", "tlcB")):
